@@ -67,7 +67,7 @@ def _native_time(kw, inst):
     if inst == "unknown":
         return {"time": {"a": 1}}
     if inst == "list3":
-        return {"time": [_mk_native_dt(kw["x0"]), _mk_native_dt(kw["x1"]), kw["x2"]]}
+        return {"time": [_mk_native_dt(t[0]), _mk_native_dt(t[1]), t[2]]}
     raise KeyError(inst)
 
 
